@@ -372,7 +372,7 @@ def gen_contract(rng, n):
         if kind == "origin_to":
             inp["pts"] = [L.encV(Q.rball(rng, dim)) for _ in range(cnt)]
             # a point is projective: any non-zero multiple of the representative, of any magnitude and sign
-            inp["scale"] = [Q.qs(rng.choice([Q.rq(rng, 20, 5, nonzero=True), F(1, 50000), F(-3, 1000000), F(1000), F(-1, 3)]))
+            inp["scale"] = [Q.qs(rng.choice([Q.rq(rng, 20, 5, nonzero=True), F(1, 50000), F(-3, 1000000), F(1000), F(-1, 3), F(1, 10 ** 9), F(-10 ** 9)]))
                             for _ in range(cnt)]
         elif kind in ("tv_origin_to", "isometry_to"):
             m = 2 if kind == "isometry_to" else 1
@@ -537,7 +537,7 @@ def gen_fletter(rng, dim, tmax):
     l = {"kind": k, "fo": rng.random() < 0.5}
     if k in ("origin_to", "timelike_to"):
         l["p"] = fball(rng, dim, math.tanh(tmax / 2))
-        l["s"] = rng.choice([1.0, -1.0, 0.3, 2.5, 2e-5, -3e-6, 1e3])
+        l["s"] = rng.choice([1.0, -1.0, 0.3, 2.5, 2e-5, -3e-6, 1e3, 1e-9, -1e9])
     elif k in ("tv_origin_to", "isometry_to", "spacelike_to"):
         l["p"] = fball(rng, dim, math.tanh(tmax / 2))
         l["v"] = [rng.gauss(0, 1) for _ in range(dim + 1)]
@@ -661,6 +661,11 @@ def run_oracle(inp):
     out["before"] = {"interior": rel(P.proj_data), "ideal": rel(I.proj_data), "exterior": rel(E.proj_data)}
     out["after"] = {"interior": rel((acc @ P).proj_data), "ideal": rel((acc @ I).proj_data), "exterior": rel((acc @ E).proj_data)}
     out["imgcls"] = type(acc @ P).__name__
+    # (G16) one composite holding interior, ideal and exterior members: member i behaves like the single object
+    mixed = np.array([inp["interior"][0], inp["ideal"][0], inp["exterior"][0], inp["ideal"][1], inp["interior"][1], inp["exterior"][1]])
+    Mx = H.Point(mixed.reshape((2, 3, dim)), model="klein")
+    out["mixed_after"] = rel((acc @ Mx).proj_data)
+    out["mixed_single"] = [rel((acc @ H.Point(m.copy(), model="klein")).proj_data)[0] for m in mixed]
     if out["amp"] <= 1e3:
         out["pred"] = {"interior": bool(np.all(H.timelike((acc @ P).proj_data))),
                        "ideal": bool(np.all(H.lightlike(np.asarray((acc @ I).proj_data) / np.max(np.abs((acc @ I).proj_data), axis=-1, keepdims=True)))),
@@ -721,6 +726,12 @@ def judge_oracle(inp, obs, lr):
     for a, b in zip(obs["before"]["exterior"], obs["after"]["exterior"]):
         if not b > -tol:
             return {"expected": "exterior stays exterior", "observed": [a, b], "tags": dict(tags, type="exterior")}
+    kinds_ = ["interior", "ideal", "exterior", "ideal", "interior", "exterior"]
+    for kd, b, c in zip(kinds_, obs.get("mixed_after", []), obs.get("mixed_single", [])):
+        bad = (kd == "interior" and not b < tol) or (kd == "ideal" and not abs(b) <= 1e-9 + tol) or (kd == "exterior" and not b > -tol)
+        if bad or abs(b - c) > 1e-9 + 10 * tol:
+            return {"expected": f"member of a mixed composite ({kd}) keeps its type and equals the single-object image ({c})", "observed": b,
+                    "tags": dict(tags, type=kd, mixed_composite=True)}
     if "pred" in obs and not all(obs["pred"].values()):
         return {"expected": "hyperbolic.timelike/lightlike/spacelike of the images", "observed": obs["pred"], "tags": dict(tags, type="predicates")}
     return None
@@ -1252,6 +1263,142 @@ def judge_enum(inp, obs, lr):
     return None
 
 
+# ------------------------------------------------------------------------------------------------
+# G15 documented refusals / G12 magnitudes / G13 twin entry points for the constructors
+# ------------------------------------------------------------------------------------------------
+def ideal_vec(rng, dim):
+    v = [rng.gauss(0, 1) for _ in range(dim)]
+    nv = math.sqrt(sum(x * x for x in v))
+    return [1.0] + [x / nv for x in v]
+
+
+def gen_refusal(rng, n):
+    for _ in range(n):
+        kind = rng.choice(["reflect_codim2", "reflect_codim2", "reflect_segment", "timelike_to_bad", "spacelike_to_bad", "hyperplane_timelike",
+                           "geodesic_h2", "geodesic_h2", "timelike_to_scaled", "spacelike_to_scaled", "origin_far", "lox_long", "sl2_large", "from_sl2"])
+        dim = rng.choice([3, 4]) if kind.startswith("reflect") else (2 if kind in ("geodesic_h2", "sl2_large", "from_sl2") else rng.choice([1, 2, 3, 4]))
+        inp = {"kind": kind, "dim": dim, "scale": 10.0 ** rng.randint(-9, 9) * rng.choice([1, -1]), "scale2": 10.0 ** rng.randint(-9, 9)}
+        if kind == "reflect_codim2":
+            k = rng.randint(2, dim - 1)          # k ideal points span a subspace of codimension dim + 1 - k >= 2
+            inp["ideal"] = [ideal_vec(rng, dim) for _ in range(k)]
+            inp["cls"] = rng.choice(["Geodesic", "Subspace"]) if k == 2 else "Subspace"
+        elif kind == "reflect_segment":
+            inp["pts"] = [fball(rng, dim, 0.8), fball(rng, dim, 0.8)]
+        elif kind in ("timelike_to_bad", "spacelike_to_bad", "hyperplane_timelike", "timelike_to_scaled", "spacelike_to_scaled"):
+            inp["p"] = fball(rng, dim, 0.9)
+            inp["v"] = [rng.gauss(0, 1) for _ in range(dim + 1)]
+            inp["bad"] = rng.choice(["lightlike", "other_type"])
+            # an EXACTLY lightlike float vector: integer Pythagorean tuple times a power of two (a generic unit float vector has
+            # square-norm ±1e-16 and is, numerically, a very distant timelike or spacelike vector — not a refusal case)
+            sp = Q.rsphere(rng, dim, den=4)
+            lcm = 1
+            for x in sp:
+                lcm = lcm * x.denominator // math.gcd(lcm, x.denominator)
+            inp["ideal"] = [[float(lcm)] + [float(x * lcm) for x in sp]]
+            inp["scale"] = 2.0 ** rng.randint(-30, 30) * rng.choice([1, -1]) if inp["bad"] == "lightlike" else inp["scale"]
+        elif kind == "geodesic_h2":
+            a, b = rng.uniform(0, 6.28), rng.uniform(0, 6.28)
+            while abs(math.remainder(a - b, 6.283185307179586)) < 0.3:
+                b = rng.uniform(0, 6.28)
+            inp["angles"] = [a, b]
+        elif kind == "origin_far":
+            d = rng.uniform(8, 17)
+            u = [rng.gauss(0, 1) for _ in range(dim)]
+            nu = math.sqrt(sum(x * x for x in u))
+            inp["hyp"] = [math.cosh(d)] + [math.sinh(d) * x / nu for x in u]
+        elif kind == "lox_long":
+            inp["t"] = rng.uniform(-25, 25)
+        elif kind in ("sl2_large", "from_sl2"):
+            a = float(rng.randint(10 ** 3, 10 ** 6))
+            inp["A"] = [[a, a + 1.0], [a - 1.0, a]] if rng.random() < 0.5 else [[a, a * a - 1.0], [1.0, a]]      # det = 1 exactly, large entries
+            inp["stack"] = rng.random() < 0.4
+        yield inp
+
+
+def run_refusal(inp):
+    kind, dim = inp["kind"], inp["dim"]
+    J = Jf(dim + 1)
+
+    def attempt(f):
+        try:
+            return {"returned": True, "res": fres(f().matrix)}
+        except Exception as e:
+            return {"returned": False, "exc": type(e).__name__, "msg": str(e)[:100]}
+    if kind == "reflect_codim2":
+        data = np.array(inp["ideal"]) * np.array([inp["scale2"]] + [1.0] * (len(inp["ideal"]) - 1))[:, None]
+        cls = H.Geodesic if inp["cls"] == "Geodesic" else H.Subspace
+        return attempt(lambda: cls(data).reflection_across())
+    if kind == "reflect_segment":
+        return attempt(lambda: H.Segment(H.Point(np.array(inp["pts"][0]), model="klein"), H.Point(np.array(inp["pts"][1]), model="klein")).reflection_across())
+    x = H.Point(np.array(inp["p"]), model="klein").hyperboloid_coords().copy() if "p" in inp else None
+    if kind in ("timelike_to_bad", "spacelike_to_bad", "hyperplane_timelike"):
+        T = H.TangentVector(H.Point(np.array(inp["p"]), model="klein"), np.array(inp["v"]))
+        sp = np.array(T.normalized().vector, dtype=float)
+        light = np.array(inp["ideal"][0])
+        if kind == "timelike_to_bad":
+            v = (light if inp["bad"] == "lightlike" else sp) * inp["scale"]
+            return attempt(lambda: H.timelike_to(v.copy()))
+        v = (light if inp["bad"] == "lightlike" else x) * inp["scale"]
+        if kind == "spacelike_to_bad":
+            return attempt(lambda: H.spacelike_to(v.copy()))
+        return attempt(lambda: H.Hyperplane(v.copy()).reflection_across())
+    if kind == "timelike_to_scaled":
+        return attempt(lambda: H.timelike_to(x * inp["scale"]))
+    if kind == "spacelike_to_scaled":
+        T = H.TangentVector(H.Point(np.array(inp["p"]), model="klein"), np.array(inp["v"]))
+        return attempt(lambda: H.spacelike_to(np.array(T.normalized().vector, dtype=float) * inp["scale"]))
+    if kind == "geodesic_h2":
+        a, b = inp["angles"]
+        e1 = np.array([1.0, math.cos(a), math.sin(a)]) * inp["scale"]
+        e2 = np.array([1.0, math.cos(b), math.sin(b)]) * inp["scale2"]
+        out = attempt(lambda: H.Geodesic(np.array([e1, e2])).reflection_across())
+        if out["returned"]:
+            # the normal of the geodesic: Minkowski-orthogonal to both endpoints (computed from unit representatives)
+            u1, u2 = e1 / e1[0], e2 / e2[0]
+            nrm = J @ np.cross(u1, u2)
+            ex = np.eye(3) - 2 * np.outer(J @ nrm, nrm) / (nrm @ J @ nrm)
+            M = np.asarray(H.Geodesic(np.array([e1, e2])).reflection_across().matrix, dtype=float)
+            out["dev"] = float(np.max(np.abs(M - ex)) / (1 + np.max(np.abs(ex))))
+            # (G13) the same hyperplane given by its normal
+            Mh = np.asarray(H.Hyperplane(nrm.copy()).reflection_across().matrix, dtype=float)
+            out["twin"] = float(np.max(np.abs(M - Mh)) / (1 + np.max(np.abs(ex))))
+        return out
+    if kind == "origin_far":
+        return attempt(lambda: H.Point(np.array(inp["hyp"]) * abs(inp["scale2"])).origin_to())
+    if kind == "lox_long":
+        return attempt(lambda: H.Isometry.standard_loxodromic(dim, math.exp(inp["t"])))
+    A = np.array(inp["A"])
+    Ain = np.stack([A, np.array([[2.0, 3.0], [1.0, 2.0]])]) if inp["stack"] else A
+    out = attempt(lambda: H.sl2_iso(Ain.copy()))
+    if kind == "from_sl2" and out["returned"]:
+        out["twin"] = float(np.max(np.abs(np.asarray(H.Isometry.from_sl2(Ain.copy()).matrix) - np.asarray(H.sl2_iso(Ain.copy()).matrix))))
+    return out
+
+
+def judge_refusal(inp, obs, lr):
+    kind = inp["kind"]
+    tags = {"kind": kind, "dim": inp["dim"]}
+    if "returned" not in obs:
+        return {"expected": "the harness step to run", "observed": obs, "tags": dict(tags, exc=obs.get("exc"))}
+    must_raise = kind in ("reflect_codim2", "reflect_segment", "timelike_to_bad", "spacelike_to_bad", "hyperplane_timelike")
+    if must_raise:
+        if obs["returned"] or obs["exc"] != "GeometryError":
+            return {"expected": "GeometryError (documented refusal: no silent answer, no other exception)", "observed": obs,
+                    "tags": dict(tags, refusal=True, bad=inp.get("bad"), cls=inp.get("cls"))}
+        return None
+    if not obs["returned"]:
+        return {"expected": "valid input of unusual size accepted", "observed": obs, "tags": dict(tags, spurious_refusal=True)}
+    tol = 1e-9 if kind != "sl2_large" and kind != "from_sl2" else 1e-6      # |A| ~ 1e6: the image has entries ~1e12, cancellation in a²+b²−c²−d²
+    if not obs["res"] <= tol:
+        return {"expected": "an isometry (scaled residual)", "observed": obs, "tags": dict(tags, residual=True, magnitude=True)}
+    if obs.get("dev", 0) > 1e-8:
+        return {"expected": "the reflection in the geodesic's normal, whatever the size of the endpoint representatives", "observed": obs,
+                "tags": dict(tags, magnitude=True)}
+    if obs.get("twin", 0) > 1e-8:
+        return {"expected": "twin entry points agree (Geodesic vs Hyperplane(normal); from_sl2 vs sl2_iso)", "observed": obs, "tags": dict(tags, entry_points=True)}
+    return None
+
+
 CLAUSES = [
     Clause("ctor_corr", "corr", gen_ctor, run_ctor, judge_ctor, lean=lean_ctor,
            site="hyperbolic.Isometry.standard_rotation/elliptic/standard_loxodromic, sl2_iso, Subspace.reflection_across",
@@ -1282,6 +1429,10 @@ CLAUSES = [
     Clause("enumeration_oracle", "oracle", gen_enum, run_enum, judge_enum,
            site="HyperbolicRepresentation.automaton_accepted / freely_reduced_elements / elements", budget={"quick": 120, "thorough": 3000},
            what="G3: elements enumerated through automaton_accepted / freely_reduced_elements / elements(words) after (and between) the same calls on unrelated representations with the same generator names (canonical, Tits–Vinberg, projective and plain free-group reps, another Coxeter group) and after a call history on the group: all preserve the form and equal the word images on a fresh representation"),
+    Clause("refusal_magnitude_oracle", "oracle", gen_refusal, run_refusal, judge_refusal,
+           site="reflection_across / timelike_to / spacelike_to / Hyperplane / origin_to / standard_loxodromic / sl2_iso",
+           budget={"quick": 300, "thorough": 8000},
+           what="G15: reflection_across of subspaces of codimension ≥ 2 (Geodesic, Subspace, Segment in H^3, H^4), timelike_to / spacelike_to / Hyperplane of lightlike or wrong-type vectors of any size must raise GeometryError; G12: the same constructors on valid data of size 10^±9, points 8–17 units away, translation lengths up to 25, SL(2) matrices with entries up to 1e6 must answer with an isometry; Geodesic of H² with rescaled endpoints gives the closed-form reflection; G13: Geodesic vs Hyperplane(normal), from_sl2 vs sl2_iso"),
     Clause("composite_reflection_oracle", "oracle", gen_crefl, run_crefl, judge_crefl, site="hyperbolic.Hyperplane / Subspace.reflection_across (composite)",
            budget={"quick": 80, "thorough": 2000},
            what="arrays of spacelike normals: every unit of the composite reflection is the reflection in its own normal"),
